@@ -30,7 +30,7 @@ def _near(flat, scores):
 def _cm_cases(draw, max_size=10):
     s = draw(gen.score_sets(max_size=max_size, mag=1e300, max_easy=1000, huge_easy=True,
                             modes=gen.ALL_MODES + ("uint",),
-                            containers=("f64", "f64", "f32", "neg-int", "neg-f32", "pos-int", "f128", "series")))
+                            containers=("f64", "f64", "f32", "neg-int", "neg-f32", "pos-int", "f128", "series", "swapped")))
     thr = draw(gen.shaped_thresholds(s["pos"] + s["neg"], mag=1e300))
     f32 = draw(st.sampled_from([None, None, None, "float32", "float16"])) if s["mode"] in ("grid", "dyadic") else None
     return dict(s=s, thr=thr, sorted=draw(st.booleans()),
